@@ -3,7 +3,7 @@
    products are assembled from.  Part 2 (distributed, composed with the halo exchange of C03) is in
    Dist/ParSpmvProofs.v and stated below once available.
    dot_row dn x n = sum_{c<n} dn c * x_c. *)
-From Raptor Require Import Base.Sums Sparse.Defs Sparse.ConvertProofs Sparse.SpmvProofs.
+From Raptor Require Import Base.Sums Sparse.Defs Sparse.ConvertProofs Sparse.SpmvProofs Dist.Comm Dist.CommProofs Dist.ParMat Dist.ParSpmvProofs.
 
 Section C02.
 Variable F : Type.
@@ -74,8 +74,26 @@ Proof.
   - apply (csc_spmv_append_neg_T_spec _ _ _ _ _ _ _ Fth); assumption.
 Qed.
 
+(* Part 2 — distributed product.  rank_state = one rank's on_proc / off_proc blocks + column map;
+   gden_row rs li = row li of the global operator that the two blocks represent.
+   For every list of rank states (any process count, any contiguous partition incl. empty ranks), every
+   package world accepted by the forward check of C03 (fwd_ok, evaluated on the implementation's dumped
+   package on every run), every global vector X: row li of rank p's result of ParMatrix::mult is the row of
+   the global operator times X.  *)
+Theorem C02_distributed_mult_is_global_product :
+  forall (w : world) (st : list (rank_state F)) (X : list F) (big N : nat) p li,
+  fwd_ok w (map (fun rs => seq (rs_fc rs) (rs_nc rs)) st) (map (fun rs => rs_colmap rs) st) big = true ->
+  length X <= big -> length w = length st -> p < length st ->
+  rs_wf F N (nth p st (mkRS 0 0 0 0 (mkCsr 0 0 []) (mkCsr 0 0 []) [])) ->
+  li < rs_nr (nth p st (mkRS 0 0 0 0 (mkCsr 0 0 []) (mkCsr 0 0 []) [])) ->
+  xat (nth p (par_mult F zero add mul w st
+               (map (fun rs => map (fun c => nth c X zero) (seq (rs_fc rs) (rs_nc rs))) st)) []) li
+  = dot (gden_row F zero add (nth p st (mkRS 0 0 0 0 (mkCsr 0 0 []) (mkCsr 0 0 []) [])) li) X N.
+Proof. intros. apply (par_mult_global F zero one add mul sub opp Fth w st X big N); assumption. Qed.
+
 End C02.
 
 Print Assumptions C02_coo_kernels.
 Print Assumptions C02_csr_kernels.
 Print Assumptions C02_csc_kernels.
+Print Assumptions C02_distributed_mult_is_global_product.
